@@ -239,3 +239,189 @@ def c02_run(driver, w, snap, ev, dev, ctx):
 
 def dest_trees_of_refs(w, dests):
     return {b: w.tree(s) for b, s in dests.items()}
+
+
+# ---------------------------------------------------------------------------
+# C08: one third-party action immediately before each push of a job
+# ---------------------------------------------------------------------------
+FOREIGN = 'feature/foreign-work'
+
+
+def c08_plan(driver, w, snap, ev, res):
+    obs = res['obs']
+    out = {'devs': [], 'ctx': {}, 'stats': {}}
+    if not E.is_job(ev):
+        return out
+    pushes = [c for c in obs.get('cmds', [])
+              if c['cmd'].startswith('git push')]
+    if not pushes:
+        return out
+    out['stats']['c08_pushing_transitions'] = 1
+    hs = M.heads(res['pre'])
+    srcs = sorted(p['src'] for p in res['pre']['prs']
+                  if p['author'] != ROBOT and p['src'] in hs)
+    devs = []
+    for j in range(len(pushes)):
+        devs.append(['new_branch', j])
+        for s in srcs:
+            devs.append(['ff_push', j, s])
+            devs.append(['rewind', j, s])
+    out['devs'] = devs
+    out['ctx'] = {'pre_pending': res['pre']['pending'],
+                  'cev': concretize(ev, res['pre'])}
+    return out
+
+
+def c08_run(driver, w, snap, ev, dev, ctx):
+    out = {'violations': [], 'stats': {'c08_deviations': 1,
+                                       'c08_' + dev[0]: 1}}
+    w.restore(snap)
+    w.set_pending(ctx['pre_pending'])
+    pre = w.state()
+    left = {}
+    counter = {'n': 0}
+
+    def hook(idx, command, kwargs, rec):
+        if not command.startswith('git push'):
+            return None
+        j = counter['n']
+        counter['n'] += 1
+        if j != dev[1]:
+            return None
+        refs = w.refs()
+        if dev[0] == 'new_branch':
+            base = sorted(M.dests(pre).values())[0]
+            sha = w.commit_file(base, 'foreign_file', 'foreign\n',
+                                'third-party work', 'mallory')
+            w.set_ref(FOREIGN, sha)
+            left[FOREIGN] = sha
+        elif dev[0] == 'ff_push':
+            tip = refs.get(dev[2])
+            if tip:
+                sha = w.commit_file(tip, 'late_file', 'late\n',
+                                    'late commit on ' + dev[2], AUTHOR)
+                w.set_ref(dev[2], sha)
+                left[dev[2]] = sha
+        elif dev[0] == 'rewind':
+            tip = refs.get(dev[2])
+            if tip:
+                sha = w.git('rev-parse', tip + '^')
+                w.set_ref(dev[2], sha)
+                left[dev[2]] = sha
+        return None
+    w.cmd_hook = hook
+    try:
+        o = E.apply(w, ctx['cev'])
+    finally:
+        w.cmd_hook = None
+    post = w.state()
+    if not left:
+        out['stats']['c08_action_not_placed'] = 1
+        return out
+    for fp, msg in M.c08_judge(w, pre, ev, o, post, left=left):
+        out['violations'].append({
+            'property': 'C08', 'fingerprint': fp + ':' + dev[0],
+            'msg': 'third party %s before push #%d: %s (job status %s)' % (
+                dev[0] + (' ' + dev[2] if len(dev) > 2 else ''), dev[1],
+                msg, o.get('status'))})
+    return out
+
+
+# ---------------------------------------------------------------------------
+# C10: repeat the same evaluation
+# ---------------------------------------------------------------------------
+COMMAND_STATUSES = ('HelpMessage', 'StatusReport', 'CommandNotImplemented',
+                    'ResetComplete', 'LossyResetWarning')
+COMMAND_WORDS = ('help', 'status', 'build', 'retry', 'clear', 'reset',
+                 'force_reset')
+
+
+def observable(state):
+    return (state['refs'], state['prs'], state['comments'],
+            state['pending'])
+
+
+def adjacent_duplicates(state):
+    out = []
+    by_pr = {}
+    for cid, user, text in state['comments']:
+        by_pr.setdefault(cid, []).append((user, text))
+    for cid, lst in by_pr.items():
+        for (u1, t1), (u2, t2) in zip(lst, lst[1:]):
+            if u1 == ROBOT and u2 == ROBOT and t1 == t2:
+                out.append((cid, t1.strip().splitlines()[0][:60]))
+    return out
+
+
+def command_comments(state, pr_id):
+    n = 0
+    for cid, user, text in state['comments']:
+        if cid == pr_id and user != ROBOT:
+            t = text.strip()
+            words = t.replace('@robot', ' ').replace('/', ' ').replace(
+                ':', ' ').split()
+            if (t.startswith('@robot') or t.startswith('/')) and words and \
+                    words[0] in COMMAND_WORDS:
+                n += 1
+    return n
+
+
+def c10_plan(driver, w, snap, ev, res):
+    out = {'devs': [], 'ctx': {}, 'stats': {}}
+    if not E.is_job(ev) or ev[0] in ('create_branch', 'delete_branch'):
+        return out
+    out['devs'] = [['repeat', 3]]
+    out['ctx'] = {'pre_pending': res['pre']['pending'],
+                  'cev': concretize(ev, res['pre'])}
+    return out
+
+
+def c10_run(driver, w, snap, ev, dev, ctx):
+    out = {'violations': [], 'stats': {'c10_repeats': 1}}
+    w.restore(snap)
+    w.set_pending(ctx['pre_pending'])
+    cev = ctx['cev']
+    states, statuses = [w.state()], []
+    for i in range(1 + dev[1]):
+        o = E.apply(w, cev)
+        statuses.append(o.get('status'))
+        # whatever the evaluation itself enqueued is processed as well
+        guard = 0
+        while w.pending_descr() and guard < 6:
+            E.apply(w, ['run_pending', 0])
+            guard += 1
+        states.append(w.state())
+    s3, s4 = states[-2], states[-1]
+    if observable(s3) != observable(s4):
+        changed = [k for k in ('refs', 'prs', 'comments', 'pending')
+                   if s3[k] != s4[k]]
+        out['violations'].append({
+            'property': 'C10', 'fingerprint': 'no-fixpoint:%s:%s' % (
+                statuses[-1], ','.join(changed)),
+            'msg': 'evaluation #4 of %s still changes %s (statuses %s)' % (
+                cev, changed, statuses)})
+    else:
+        out['stats']['c10_fixpoints'] = 1
+    dups = adjacent_duplicates(states[-1])
+    if dups:
+        out['violations'].append({
+            'property': 'C10', 'fingerprint': 'same-message-twice:%s' %
+            dups[0][1],
+            'msg': 'the same message twice in a row on pull request %d: %r '
+                   '(after repeating %s, statuses %s)' % (
+                       dups[0][0], dups[0][1], cev, statuses)})
+    ncmd = sum(1 for s in statuses if s in COMMAND_STATUSES)
+    if ncmd:
+        out['stats']['c10_command_runs'] = ncmd
+    pr_ids = [p['id'] for p in states[0]['prs'] if p['author'] != ROBOT]
+    pending_cmds = sum(command_comments(states[0], k) for k in pr_ids)
+    if ncmd > max(pending_cmds, 0) or ncmd > 1 and len(set(
+            s for s in statuses if s in COMMAND_STATUSES)) == 1 and \
+            ncmd > pending_cmds:
+        out['violations'].append({
+            'property': 'C10', 'fingerprint': 'command-re-executed:%s' % [
+                s for s in statuses if s in COMMAND_STATUSES][0],
+            'msg': '%d command executions (%s) for %d command comment(s) '
+                   'while repeating %s' % (ncmd, statuses, pending_cmds,
+                                           cev)})
+    return out
